@@ -161,7 +161,7 @@ def live(sid, I, T, pattern, window_intervals=10):
     return {"id": sid, "kind": "iscp", "conn": {"pingMs": [I, T]}, "p": params(I, T), "steps": steps}
 
 
-def silent_mid(sid, I, T, k, frac, full, app, bping=False):
+def silent_mid(sid, I, T, k, frac, full, app, bping=False, close_delay=0):
     """the broker falls silent frac/4 of an interval after its k-th pong (k = 0: after the handshake); full = it answers
     nothing at all any more (the redial is then held at a gate until the broker talks again); app = an application
     request is in flight when the client gives up"""
@@ -191,7 +191,10 @@ def silent_mid(sid, I, T, k, frac, full, app, bping=False):
         steps.append({"a": "join", "obj": "A"})
     steps.append({"a": "await", "ev": "BSendPong", "match": {"c": 2}, "n": 2, "ms": I + 800})
     steps += tail_steps()
-    return {"id": sid, "kind": "iscp", "conn": {"pingMs": [I, T]}, "p": params(I, T), "steps": steps}
+    conn = {"pingMs": [I, T]}
+    if close_delay:
+        conn["closeDelayMs"] = close_delay     # the transport's Close blocks (closing handshake with the silent peer): recovery must not wait for it
+    return {"id": sid, "kind": "iscp", "conn": conn, "p": params(I, T), "steps": steps}
 
 
 def dial_fail(sid, I, T, k, fails):
@@ -309,6 +312,9 @@ def run():
                                               I, T, k, frac, full, app))
         for k in ([2, 4] if quick else [2, 3, 4, 6]):
             scs.append(silent_mid("C15/silent/%d-%d/k%d-f2-pong-bping" % (I, T, k), I, T, k, 2, False, False, bping=True))
+        for k in ([1] if quick else [0, 1, 3]):
+            for app in (False, True):
+                scs.append(silent_mid("C15/slowclose/%d-%d/k%d-%s" % (I, T, k, "app" if app else "idle"), I, T, k, 2, False, app, close_delay=1200))
         for k, fails in ([(1, 1)] if quick else [(0, 1), (1, 1), (1, 2), (3, 1)]):
             scs.append(dial_fail("C15/dialfail/%d-%d/k%d-f%d" % (I, T, k, fails), I, T, k, fails))
         scs.append(bping_burst("C15/bping/%d-%d/16" % (I, T), I, T, 16))
